@@ -177,6 +177,21 @@ func runUpload(s upScript) upResult {
 	return runStream(s.Dialect, stream, cuts, len(s.Items), nControl, false)
 }
 
+// sharedServer: one option set (one running attachment server) serving several connections one after the other.
+type sharedServer struct {
+	serve func(net.Conn)
+	rec   *recorder
+}
+
+var sharedSrv *sharedServer
+
+func newSharedServer(dialect int) *sharedServer {
+	s := &sharedServer{}
+	s.serve = attachment.VerifServer(attachment.WithActiveSafetyType(consts.ActiveSafetyType(dialect)),
+		attachment.WithFileEventerFunc(func() attachment.FileEventer { return s.rec }))
+	return s
+}
+
 // runStream writes stream (cut at cuts) to the attachment connection loop; it waits (bounded) until wantEvents
 // events and wantReplies reply frames were observed before hanging up. With defaultEventer the server's own
 // file handler is used (it writes below the current directory).
@@ -197,6 +212,11 @@ func runStream(dialect int, stream []byte, cuts []int, wantEvents, wantReplies i
 		opts := []attachment.Option{attachment.WithActiveSafetyType(consts.ActiveSafetyType(dialect))}
 		if !defaultEventer {
 			opts = append(opts, attachment.WithFileEventerFunc(func() attachment.FileEventer { return rec }))
+		}
+		if sharedSrv != nil {
+			sharedSrv.rec = rec
+			sharedSrv.serve(server)
+			return
 		}
 		attachment.VerifServeConn(server, opts...)
 	}()
